@@ -269,7 +269,7 @@ def optimize_acqf_discrete(
     # Either a fantasy update or a full update, i.e., adding samples along the way.
 
     chosen = 0
-    while chosen < q:
+    while chosen < q and len(choices) > 0:
         acq_values = acq(choices)
 
         best_idx = np.argmax(acq_values)
@@ -298,6 +298,7 @@ def optimize_decoupled_acqf_discrete(
     :return: Tuple of selected points, their corresponding acquisition values
         and their corresponding objective indices to evaluate.
     """
+    q = min(q, len(choices))
     saved_eval_i = acq.evaluation_index
 
     candidate_list = np.empty((0, choices.shape[-1]))
